@@ -6,6 +6,7 @@ import (
 	"bytes"
 	"context"
 	"fmt"
+	"strings"
 	"testing"
 
 	"berty.tech/weshnet/v2/internal/zzverif/vrep"
@@ -183,4 +184,86 @@ func c05a(rep *vrep.Report) {
 		}
 	}
 	rep.Set("triples", int64(nTriples))
+	c05aFaults(rep, seed)
+}
+
+// c05aFaults: an announcement produced while the store has a transient fault. For every datastore operation the
+// sender's store performs while sealing an announcement (chain key present, two messages already sent), that one
+// operation fails; the call must then either fail or still hand out the chain key the sender really uses.
+func c05aFaults(rep *vrep.Report, seed int64) {
+	ctx := context.Background()
+	for _, batched := range []bool{false, true} {
+		for _, kind := range []string{"multimember", "contact", "account"} {
+			S := newParty(seed, "A", "1", 3, 2, batched)
+			rAcct := "B"
+			if kind == "account" {
+				rAcct = "A"
+			}
+			R := newParty(seed, rAcct, "r", 3, 2, batched)
+			var g *protocoltypes.Group
+			switch kind {
+			case "multimember":
+				g = detGroupMultiMember(seed, "G1")
+			case "contact":
+				gg, err := S.st.GetGroupForContact(detKey(seed, "acct/B").GetPublic())
+				must(err)
+				g = gg
+			default:
+				gg, _, err := S.st.GetGroupForAccount()
+				must(err)
+				g = gg
+			}
+			_ = S.announce(g, R.md(g).Member())
+			S.seal(g, []byte("m1"))
+			S.seal(g, []byte("m2"))
+			truth, err := S.cloneParty().st.getDeviceChainKeyForGroupAndDevice(ctx, groupPK(g), S.md(g).Device())
+			must(err)
+			// dry run: count the operations
+			n := 0
+			dry := S.cloneParty()
+			dry.ds.fail = func(op, key string) error { n++; return nil }
+			_, err = dry.st.GetShareableChainKey(ctx, g, R.md(g).Member())
+			must(err)
+			for i := 0; i < n; i++ {
+				for _, fe := range []error{fmt.Errorf("injected: database is locked"), context.DeadlineExceeded} {
+					P := S.cloneParty()
+					k := 0
+					var failedOp string
+					P.ds.fail = func(op, key string) error {
+						k++
+						if k-1 == i {
+							failedOp = op + " " + key
+							return fe
+						}
+						return nil
+					}
+					ann, aerr := P.st.GetShareableChainKey(ctx, g, R.md(g).Member())
+					P.ds.fail = nil
+					rep.AddTransitions(1)
+					cls := "refused"
+					if aerr == nil {
+						ck, derr := decryptDeviceChainKey(ann, g, R.md(g).member, S.md(g).Device())
+						switch {
+						case derr != nil:
+							cls = "unreadable"
+						case string(ck.ChainKey) == string(truth.ChainKey) && ck.Counter == truth.Counter:
+							cls = "exact"
+						default:
+							cls = "other-key"
+						}
+						if cls != "exact" {
+							rep.Violation("C05/announcement-not-exact-under-storage-fault", fmt.Sprintf("%s group (batched=%v): datastore operation %d of %d of GetShareableChainKey (%s) fails with '%v'; the call succeeds and the announcement is %s: it carries counter %d, the sender's chain is at %d (key equal: %v) - the recipient registers a key the sender never uses", kind, batched, i, n, failedOp, fe, cls, ck.GetCounter(), truth.Counter, ck != nil && string(ck.ChainKey) == string(truth.ChainKey)), map[string]interface{}{"group": kind, "batched": batched, "fault_at": i, "op": failedOp})
+						}
+					}
+					rep.Eval(fmt.Sprintf("fault/%s/%s/%s", kind, strings.SplitN(failedOp, " ", 2)[0], cls))
+					// and the sender's own chain must be untouched: the next message still opens at a receiver of the true key
+					after, err := P.cloneParty().st.getDeviceChainKeyForGroupAndDevice(ctx, groupPK(g), S.md(g).Device())
+					if err != nil || string(after.ChainKey) != string(truth.ChainKey) || after.Counter != truth.Counter {
+						rep.Violation("C05/storage-fault-changes-chain-key", fmt.Sprintf("%s group: after a fault at operation %d (%s) the sender's stored chain key differs (err=%v)", kind, i, failedOp, err), map[string]interface{}{"group": kind, "fault_at": i})
+					}
+				}
+			}
+			rep.Sample(map[string]interface{}{"part": "announcement under one storage fault", "group": kind, "batched": batched, "datastore_operations": n})
+		}
+	}
 }
